@@ -128,6 +128,19 @@ Theorem C18_release_on_current_limiter_refuted :
 Proof. exact release_on_current_refuted. Qed.
 Print Assumptions C18_release_on_current_limiter_refuted.
 
+(* The lifecycle obligation the theorems rest on: EClose (= the PostDisconnect plugins run)
+   is the only way out of LLive.  If an admitted session could end without the hook (e.g.
+   closeLocked returning early because socket.Close reported an error) its slot stays taken:
+   limit 1, nobody connected, the next connection is refused; the state is outside the
+   invariant. *)
+Theorem C18_session_end_without_disconnect_hook_refuted :
+  exists s s', lrun true (linit 1) (tr_admit 0) = Some s /\ end_without_hook s 0 = Some s' /\
+    quiescent s' /\ admitted s' = 0 /\ c_now (l_c s') = 1 /\ c_tmp (l_c s') = 1 /\
+    ~ inv s' /\
+    exists s'', lrun true s' (tr_refused_fixed 1) = Some s'' /\ admitted s'' = 0.
+Proof. exact end_without_hook_refuted. Qed.
+Print Assumptions C18_session_end_without_disconnect_hook_refuted.
+
 (* ---------------- rate limit ---------------- *)
 
 (* Any window [tr] of any interleaving starting in any well-formed state: the takes
